@@ -107,6 +107,24 @@ def main():
     for t in gen.sample(rng, num, 2000 if thorough else 150):
         add("assign", t, "num", {"initialize_vars": True})
 
+    # literal spellings: every text of the numeric template over {0,1,9} up to 5 characters (spec/GenSeq.tla), hex
+    # literals, unary signs and blanks where the documentation allows them
+    import re
+    syms = ["0", "1", "9", ".", "E", "+", "-"]
+    seqs = gen.gen_seqs(rep, wd, "lit", 7, [0, 1, 2, 3], list(range(7)), [(a, b) for a in range(7) for b in range(7)], 5 if thorough else 4)
+    lits = sorted({"".join(syms[x] for x in s) for s in seqs})
+    lits = [l for l in lits if re.fullmatch(r"(\d+\.?\d*|\.\d*)(E[+-]?\d*)?", l)]
+    rep.count("literal_spellings", len(lits))
+    hexes = ["&H" + a + b for a in ("", "0", "7", "F") for b in ("0", "7", "8", "F")] + ["&H1FF", "&H7FFF", "&H8000", "&H8001", "&HFFFF", "&H10000", "&H1FFFF", "& H FF", "&H 10", "& H8", "& H 8000"]
+    for l in (lits if thorough else gen.sample(rng, lits, 260)) + hexes:
+        cid += 1
+        plan.append(dict(build(cid, "assign", [l], "num", {"add_standard_prefix": False}), logic=True))
+        if "E" in l:
+            cid += 1
+            plan.append(dict(build(cid, "assign", [l.replace("E", " E ")], "num", {"add_standard_prefix": False}), logic=True))
+        cid += 1
+        plan.append(dict(build(cid, "assign", ["-", l, "+", "A"], "num", {"add_standard_prefix": False}), logic=True))
+
     # ---- real translator ----
     res = common.run_real("w_convert", [{"src": "\n".join(p["lines"]), "opts": p["opts"]} for p in plan])
     cases = []
